@@ -36,6 +36,9 @@ ActsTyped == {a \in Only({"insertd", "deleted", "selectd", "select", "update", "
              \cup Only({"commit", "rollback"})
 \* reads of every form around commits of another process
 ActsReads == Only({"select", "selectsub", "selectfn", "selectinline", "selectagg", "selectpath", "insertpath", "env", "update", "insertsel", "updatejoin", "commit", "rollback"})
+\* a procedure that reads, executes nested statements and reads again while another process commits in between
+ActsNested == Only({"select", "selectsub", "selectagg", "selectfn", "selectinline", "env", "nestexec", "nestsource", "nestprep", "callnoop"})
+              \cup {a \in Only({"insert1", "update"}) : a.t \in {"f1", TempT} /\ a.k = 1}
 Depth6 == TLCGet("level") <= 6
 Depth5 == TLCGet("level") <= 5
 =============================================================================
